@@ -126,3 +126,4 @@ def run_case(case, ctx):
     ctx.call("row_bounds", P.row_bounds)
     ctx.call("column_bounds", P.column_bounds)
     ctx.call("n_row_combinations", lambda: P.n_row_combinations)
+    c11.receiver_unchanged(ctx, case, P)
